@@ -10,11 +10,11 @@ Bounded-exhaustive exploration on the real `opticomlib.devices.DAC` / `SAMPLER`:
                     thresholded (sign-aware) against bias+Vout/2 and must give the word back (any k for NRZ,
                     k < sps//2 for RZ); the decided bits are fed to DAC again. A second, thin lattice runs the short
                     words over the edge amplitudes (numpy scalars, just inside +-48, 1e-12..1e-3 scales, big offset).
-* part `long`     : structured words of length 7..4097 (primes, 2^n, 2^n+-1) in NRZ / RZ / Gaussian shape.
 * part `gauss.iso`: sps in {8,9,16,17,32,64,128} x EVERY integer T in [ceil(sps/2), 2*sps] x m in {1,2,3,4} on isolated
                     ones (single-slot word, first / last / inner slot, two ones in one word): peak position / peak value
                     / half-maximum width; EVERY sps in 8..128 at the limits of T and m; defaults of T, m, c.
 * part `gauss.inv`: every word x T in [ceil(sps/2), sps] x m: sampling at k = sps//2 returns the word.
+* part `long`     : structured words of length 7..4097 (primes, 2^n, 2^n+-1) in NRZ / RZ / Gaussian shape.
 * part `sampler`  : SAMPLER on generic records (every sample dtype, with / without / zero / mixed-dtype noise, scales
                     1e-12..1e6, lengths around sps, 1024, 4096, primes; write-protected; result fed to SAMPLER again).
 * part `grid`     : EVERY sps in 2..128 reached through every call form of `gv` ((sps), (sps,R), (sps,fs), (R,fs) with
@@ -59,8 +59,10 @@ FORMS = ['str', 'str_spaced', 'list', 'tuple', 'ndarray_int', 'ndarray_bool', 'b
 FORMS_EXT = ['str_commas', 'str_comma_space', 'list_bool', 'list_float', 'list_npint', 'ndarray_uint8', 'ndarray_int8',
              'ndarray_int16', 'ndarray_int32', 'ndarray_float64', 'ndarray_float32', 'ndarray_float16', 'binary_sequence_twice']
 N_SWEEP_FORMS = len(FORMS)
-# the instant k is passed as a Python int and as numpy integers (an instant read from np.argmax / an eye is a numpy integer)
-KTYPES = ['int', 'int64', 'int32', 'uint8', 'int16', 'intp', 'uint64']
+# the instant k is passed as a Python int and as the numpy integers that index computations return (np.argmax, an eye: int64 /
+# intp / int32).  Narrow and unsigned numpy integers are left out: an implementation that computes k + j*sps in the type of k
+# would overflow on them, and the statement does not say that it must not
+KTYPES = ['int', 'int64', 'int32', 'intp']
 
 
 # ------------------------------------------------------------------ helpers
@@ -1070,32 +1072,6 @@ def run(ctx):
     cases.sort(key=lambda c: c[0])
     ctx.pmap('rect', rect_case, [c[1] for c in cases], horizon=120, chunk=64)
 
-    # ---- long structured words
-    if quick:
-        long_L = [7, 13, 16, 17, 97, 127, 128, 1023, 1024, 1025, 4096, 4097]
-        long_sps = [2, 3, 8, 17]
-    else:
-        long_L = [7, 8, 13, 16, 17, 31, 32, 33, 63, 64, 97, 127, 128, 129, 255, 256, 257, 1023, 1024, 1025, 2047, 2048, 4095, 4096, 4097, 8191, 8192]
-        long_sps = [2, 3, 5, 8, 16, 17, 31, 64]
-    lc = []
-    for L in long_L:
-        for sps in long_sps + ([128] if L <= (130 if quick else 1025) else []):
-            for pi, pattern in enumerate(LONG_PATTERNS):
-                fi = pi + L + sps
-                lc.append(('nrz', sps, L, pattern, 1, 0, None, None, ctx.seed, fi))
-                lc.append(('rz', sps, L, pattern, -3, -2, None, None, ctx.seed, fi + 1))
-                if sps >= 8:
-                    for T in sorted({math.ceil(sps / 2), sps, 2 * sps}):
-                        for m in ((1, 4) if quick else (1, 2, 3, 4)):
-                            lc.append(('gaussian', sps, L, pattern, 0.5, 0.25, T, m, ctx.seed, fi + 2 + m))
-    ctx.rule(f'long: structured words {LONG_PATTERNS} of length {long_L} x sps {long_sps} (+128 for the shorter words) x NRZ / RZ / Gaussian '
-             f'(T in {{ceil(sps/2), sps, 2sps}}, sps >= 8), container form rotating over {LONG_FORMS}: length, every slot (NRZ/RZ), the '
-             f'Gaussian clauses on every isolated one (first / last / middle slot, a one every 8 slots), SAMPLER at the instants '
-             f'{{0,1,sps//2-1,sps//2,sps-2,sps-1}} with noise, inverse (Gaussian: k=sps//2, T<=sps)')
-    ctx.assume('long: the slot reference is built from index arithmetic (slot, j = divmod(i, sps)); the pseudo-random word comes from an own '
-               '7-bit shift register / numpy RandomState(VERIF_SEED), not from the library')
-    ctx.pmap('long', long_case, lc, horizon=120)
-
     # ---- Gaussian, isolated one
     g_amps = [(1, 0), (-3, -2)] if quick else AMPS
     iso = []
@@ -1167,6 +1143,32 @@ def run(ctx):
     if mg:
         ctx.extra['gauss_inv_min_decision_margin_rel_Vout'] = round(min(mg), 4)
         print(f'[C05] gauss.inv smallest |sample-threshold|/|Vout| = {min(mg):.4f}', flush=True)
+
+    # ---- long structured words
+    if quick:
+        long_L = [7, 13, 16, 17, 97, 127, 128, 1023, 1024, 1025, 4096, 4097]
+        long_sps = [2, 3, 8, 17]
+    else:
+        long_L = [7, 8, 13, 16, 17, 31, 32, 33, 63, 64, 97, 127, 128, 129, 255, 256, 257, 1023, 1024, 1025, 2047, 2048, 4095, 4096, 4097, 8191, 8192]
+        long_sps = [2, 3, 5, 8, 16, 17, 31, 64]
+    lc = []
+    for L in long_L:
+        for sps in long_sps + ([128] if L <= (130 if quick else 1025) else []):
+            for pi, pattern in enumerate(LONG_PATTERNS):
+                fi = pi + L + sps
+                lc.append(('nrz', sps, L, pattern, 1, 0, None, None, ctx.seed, fi))
+                lc.append(('rz', sps, L, pattern, -3, -2, None, None, ctx.seed, fi + 1))
+                if sps >= 8:
+                    for T in sorted({math.ceil(sps / 2), sps, 2 * sps}):
+                        for m in ((1, 4) if quick else (1, 2, 3, 4)):
+                            lc.append(('gaussian', sps, L, pattern, 0.5, 0.25, T, m, ctx.seed, fi + 2 + m))
+    ctx.rule(f'long: structured words {LONG_PATTERNS} of length {long_L} x sps {long_sps} (+128 for the shorter words) x NRZ / RZ / Gaussian '
+             f'(T in {{ceil(sps/2), sps, 2sps}}, sps >= 8), container form rotating over {LONG_FORMS}: length, every slot (NRZ/RZ), the '
+             f'Gaussian clauses on every isolated one (first / last / middle slot, a one every 8 slots), SAMPLER at the instants '
+             f'{{0,1,sps//2-1,sps//2,sps-2,sps-1}} with noise, inverse (Gaussian: k=sps//2, T<=sps)')
+    ctx.assume('long: the slot reference is built from index arithmetic (slot, j = divmod(i, sps)); the pseudo-random word comes from an own '
+               '7-bit shift register / numpy RandomState(VERIF_SEED), not from the library')
+    ctx.pmap('long', long_case, lc, horizon=120)
 
     # ---- SAMPLER on generic records
     sc = []
